@@ -40,6 +40,7 @@ func drawPolicy(c *Ctx, tw *TunWorld) string {
 func runC16(c *Ctx) {
 	tw := PlanTunnels(c, TunOpts{N: 1 + c.T.Weighted(3, 1), Transports: []string{"ws", "legacy"}})
 	pol := drawPolicy(c, tw)
+	tw.NTLM = c.T.Bool(1, 5)
 	if !BootTun(c, tw, false) {
 		return
 	}
@@ -85,6 +86,7 @@ func runC16(c *Ctx) {
 func runC17(c *Ctx) {
 	tw := PlanTunnels(c, TunOpts{N: 1, Transports: []string{"ws", "legacy"}})
 	tw.Cfg.SmartCardAuth = c.T.Bool(1, 2)
+	tw.NTLM = c.T.Bool(1, 2) // all four server settings of {cookie auth, smart card}
 	if !BootTun(c, tw, false) {
 		return
 	}
